@@ -287,7 +287,7 @@ def corr(ctx: Ctx):
     M = _mods()
     PG = M["periodicgrid"].PeriodicGrid
     rng = ctx.rng
-    ncase = ctx.n(2500, 50000)
+    ncase = ctx.n(5000, 50000)
     cases, lines = [], []
     for ci in range(ncase):
         args = periodic_args(rng)
@@ -569,7 +569,16 @@ def oracle(ctx: Ctx, budget: str):
                 dup = len(set(got)) != len(got)
                 sub = "duplicate" if dup else ("images" if got != want else "values")
                 if pre and got != want:
-                    sub = "after-points-setter"
+                    # the cause is the reassignment iff a fresh object with the same points answers correctly
+                    try:
+                        with warnings.catch_warnings():
+                            warnings.simplefilter("ignore")
+                            fresh = PG(np.array(g.points), np.array(g.weights), args["realvecs"]).get_localgrid(cc, r)
+                        filc, fok = recover_ilc(P, fresh, a)
+                        if fok and sorted((int(i), tuple(-t for t in j)) for i, j in zip(fresh.indices, filc)) == want:
+                            sub = "after-points-setter"
+                    except Exception:  # noqa: BLE001
+                        pass
                 ctx.fail("oracle", f"periodicgrid.get_localgrid:{sub}",
                          f"get_localgrid(center={c.tolist()}, radius={r}) (dim {d}, {k} lattice vector(s), wrap={args['wrap']}): "
                          f"(index, translation) pairs {got[:10]} ({len(got)}), brute-force enumeration {want[:10]} ({len(want)})",
